@@ -13,13 +13,13 @@ P = emit.P
 
 def run(rep):
     w = rep.world('dev')
-    k1(rep, w)
-    k2(rep, w)
-    k3(rep, w)
-    k4(rep, w)
+    rep.guard(k1, rep, w)
+    rep.guard(k2, rep, w)
+    rep.guard(k3, rep, w)
+    rep.guard(k4, rep, w)
     import c06
-    c06.s2(rep, w)     # a class declared in a local scope is a captured local of its own methods: scope exit (also by break /
-    c06.s4(rep, w)     # continue) has to close it, and the open-upvalue list must keep every entry
+    rep.guard(c06.s2, rep, w)     # a class declared in a local scope is a captured local of its own methods: scope exit (also by break /
+    rep.guard(c06.s4, rep, w)     # continue) has to close it, and the open-upvalue list must keep every entry
 
 
 def lookups(w, paths):
